@@ -46,7 +46,7 @@ func decodeLoopInfo(c *Ctx) (fn *ssa.Function, get *ssa.Call, skip *ssa.Call, kn
 			if shortFn(f) == "structDesc.GetField" && isLoopBlock(b) {
 				get = call
 			}
-			if f.Name() == "Skip" && strings.Contains(f.String(), "thrift") {
+			if isTrustedSkip(f) || skipWrapperOf(f) >= 0 {
 				skip = call
 			}
 			if shortFn(f) == "tDecoder.mallocIfPointer" {
@@ -189,10 +189,10 @@ func ruleFieldDispatch(c *Ctx) []Ob {
 	} else {
 		args := skip.Call.Args
 		tt := args[len(args)-1]
-		okT := false
-		if cv, ok := tt.(*ssa.Convert); ok && wireSource(a, cv.X) {
-			okT = true
+		if k := skipWrapperOf(skip.Call.StaticCallee()); k >= 0 && k < len(args) {
+			tt = args[k]
 		}
+		okT := wireSource(a, stripConv(tt))
 		s.check(okT, "skip:type", c.InstrPos(skip), "skips with the type byte read from the wire", "the skipper is given "+path(tt)+" instead of the wire type byte: a field whose wire type differs from the schema would be skipped with the wrong shape")
 		// reachable only from the two skip conditions: block's preds are the true edges of f == nil / WT != tp
 		okEdge := true
